@@ -1,12 +1,262 @@
-"""Bounded witness search against the real crates (not the deciding step)."""
+"""Bounded witness search against the REAL crates of /repo (DESIGN.md 2.7).
+
+This is never the deciding step.  When a tagged obligation fails, the driver asks here for a concrete input on
+which the real code (built from /repo's working tree) visibly breaks the property; the bounds are recorded in the
+replay file.  Oracles are transcribed from the property sentences, independently of the Verus specs.
+"""
+import itertools
 import json
+import os
+import re
+import subprocess
+
+VERIF = os.path.dirname(os.path.dirname(os.path.abspath(__file__)))
+WORK = os.path.join(VERIF, ".work")
+TARGET = os.path.join(WORK, "replay-target")
+BIN = os.path.join(TARGET, "release", "vx-replay")
+_built = False
+
+
+def ensure_built():
+    global _built
+    if _built and os.path.exists(BIN):
+        return True
+    env = dict(os.environ, CARGO_NET_OFFLINE="true", CARGO_TARGET_DIR=TARGET)
+    lock = os.path.join(VERIF, "replay", "Cargo.lock")
+    if not os.path.exists(lock) and os.path.exists("/repo/Cargo.lock"):
+        import shutil
+        shutil.copy("/repo/Cargo.lock", lock)
+    p = subprocess.run(["cargo", "build", "--release", "--offline"], cwd=os.path.join(VERIF, "replay"), env=env,
+                       capture_output=True, text=True)
+    _built = p.returncode == 0
+    if not _built:
+        raise RuntimeError("replay harness does not build against /repo: " + p.stderr[-1500:])
+    return True
+
+
+def run_case(case, timeout=60):
+    """returns dict(exit=int|None, signal/timeout, out=parsed json or None, stderr=str)"""
+    ensure_built()
+    try:
+        p = subprocess.run([BIN], input=json.dumps(case), capture_output=True, text=True, timeout=timeout)
+    except subprocess.TimeoutExpired:
+        return {"exit": None, "timeout": True, "out": None, "stderr": "timeout after %ds" % timeout}
+    out = None
+    try:
+        out = json.loads(p.stdout) if p.stdout.strip() else None
+    except Exception:
+        out = None
+    return {"exit": p.returncode, "timeout": False, "out": out, "stderr": p.stderr[-600:]}
+
+
+def norm(tokens):
+    return re.sub(r"\s+", "", tokens or "")
+
+
+# ---------------------------------------------------------------------------------------------
+# generators + oracles, one family per property
+# ---------------------------------------------------------------------------------------------
+
+def type_exprs(depth):
+    """all GraphQL type expressions over `Int` up to list depth `depth`: (sdl text, rust type without spaces)"""
+    def gen(d):
+        # returns list of (sdl, rust_nonnull, ) for a *nullable-form* builder
+        base = [("Int", "Int")]
+        out = list(base)
+        if d > 0:
+            for (s, r) in exprs(d - 1):
+                out.append(("[%s]" % s, "Vec<%s>" % r))
+        return out
+
+    def exprs(d):
+        res = []
+        for (s, r) in gen(d):
+            res.append((s, "Option<%s>" % r))
+            res.append((s + "!", r))
+        return res
+    return exprs(depth)
+
+
+def c13_cases(tier):
+    depth = 2 if tier == "quick" else 4
+    for (sdl, rust) in type_exprs(depth):
+        case = {"schema": "type Query { f: %s }" % sdl, "query": "query Q { f }", "options": {"mode": "cli"}}
+
+        def oracle(res, rust=rust, sdl=sdl):
+            if res["exit"] != 0 or not res["out"] or not res["out"].get("ok"):
+                return None  # generation failed / panicked: not a wrong mapping
+            t = norm(res["out"]["tokens"])
+            if ("pubf:%s," % rust) not in t and ("pubf:%s}" % rust) not in t:
+                m = re.search(r"pubf:([^,}]*)", t)
+                return "field `f: %s` is declared as `%s`, the rule gives `%s`" % (sdl, m.group(1) if m else "?", rust)
+            return None
+        yield case, oracle
+
+
+def c14_cases(tier):
+    for strategy in ("allow", "warn", "deny"):
+        for dep in ("", "@deprecated", '@deprecated(reason: "why")'):
+            case = {"schema": "type Query { f: Int %s g: Int }" % dep, "query": "query Q { f g }",
+                    "options": {"mode": "cli", "deprecation": strategy}}
+
+            def oracle(res, strategy=strategy, dep=dep):
+                if res["exit"] != 0 or not res["out"] or not res["out"].get("ok"):
+                    return "generation failed for a valid input: %s" % (res.get("stderr") or res["out"])
+                t = norm(res["out"]["tokens"])
+                has_f = "pubf:" in t
+                m = re.search(r"(#\[deprecated[^\]]*\])pubf:", t)
+                has_attr = bool(m)
+                if "pubg:" not in t or re.search(r"#\[deprecated[^\]]*\]pubg:", t):
+                    return "non-deprecated field g is marked or omitted"
+                want_f = not (dep and strategy == "deny")
+                want_attr = bool(dep) and strategy == "warn"
+                if has_f != want_f:
+                    return "field f %s under strategy %s (deprecated=%s)" % ("present" if has_f else "omitted", strategy, bool(dep))
+                if has_f and has_attr != want_attr:
+                    return "#[deprecated] %s under strategy %s (deprecated=%s)" % ("present" if has_attr else "absent", strategy, bool(dep))
+                if has_attr and "reason" in dep and 'note="why"' not in m.group(1):
+                    return "deprecation reason not carried verbatim: %s" % m.group(1)
+                if has_attr and "reason" not in dep and "note" in m.group(1):
+                    return "a note appears without a reason"
+                return None
+            yield case, oracle
+
+
+def c16_cases(tier):
+    exprs = ["ID", "ID!", "[ID!]!", "[ID]", "[[ID!]]"] if tier == "quick" else [s for (s, _) in type_exprs(3)]
+    for e in exprs:
+        e = e.replace("Int", "ID")
+        case = {"schema": "type Query { f: %s s: String }" % e, "query": "query Q { f s }", "options": {"mode": "cli"}}
+
+        def oracle(res, e=e):
+            if res["exit"] != 0 or not res["out"] or not res["out"].get("ok"):
+                return None
+            t = norm(res["out"]["tokens"])
+            m = re.search(r"((?:#\[[^\]]*\])*)pubf:([^,}]*)", t)
+            if not m:
+                return "field f missing"
+            attrs, ty = m.group(1), m.group(2)
+            if "deserialize_with" in re.search(r"((?:#\[[^\]]*\])*)pubs:", t).group(1):
+                return "a non-ID field carries the ID coercion"
+            if "deserialize_with" not in attrs:
+                return "ID-typed field `f: %s` carries no coercion" % e
+            if "deserialize_id" in attrs and ty != "ID":
+                return "`f: %s` has type %s but helper deserialize_id returns String" % (e, ty)
+            if "deserialize_option_id" in attrs and ty != "Option<ID>":
+                return "`f: %s` has type %s but helper deserialize_option_id returns Option<String>" % (e, ty)
+            return None
+        yield case, oracle
+
+
+def c17_cases(tier):
+    kinds = [("interface Node { id: ID! } type Thing implements Node { id: ID! } type Query { node: Node }", "Node", "node"),
+             ("type A { id: ID! } type B { id: ID! } union U = A | B type Query { node: U }", "U", "node"),
+             ("type T { id: ID! t: T } type Query { node: T }", "T", "node")]
+    maxlen = 3 if tier == "quick" else 6
+    for (schema, ty, root) in kinds:
+        for n in range(1, maxlen + 1):
+            for with_tn in (False, True):
+                names = ["F%d" % i for i in range(n)]
+                frs = []
+                for i, nm in enumerate(names):
+                    nxt = names[(i + 1) % n]
+                    frs.append("fragment %s on %s { %s ...%s }" % (nm, ty, "__typename" if with_tn else "", nxt))
+                q = " ".join(frs) + " query Q { %s { ...%s } }" % (root, names[0])
+                case = {"schema": schema, "query": q, "options": {"mode": "cli"}}
+
+                def oracle(res, n=n, ty=ty, with_tn=with_tn):
+                    if res.get("timeout"):
+                        return "generation does not terminate (spread cycle of length %d on %s)" % (n, ty)
+                    if res["exit"] != 0:
+                        return "process died with exit status %s (spread cycle of length %d on %s, __typename=%s): %s" % (
+                            res["exit"], n, ty, with_tn, (res["stderr"] or "").strip()[-160:])
+                    return None
+                yield case, oracle
+
+
+def c11_cases(tier):
+    kws = ["type", "fn", "self", "Self", "async", "try", "match", "loop"] if tier == "quick" else \
+        "as break const continue crate else enum extern false fn for if impl in let loop match mod move mut pub ref return self Self static struct super trait true type unsafe use where while async await dyn abstract become box do final macro override priv typeof unsized virtual yield try".split()
+    for kw in kws:
+        case = {"schema": "type Query { %s: Int other: Int }" % kw, "query": "query Q { %s x: other }" % kw, "options": {"mode": "cli"}}
+
+        def oracle(res, kw=kw):
+            if res["exit"] != 0 or not res["out"] or not res["out"].get("ok"):
+                return "generation failed for field named %s" % kw
+            t = norm(res["out"]["tokens"])
+            if ("pub%s_:" % kw) not in t:
+                return "keyword field `%s` is not escaped as `%s_`" % (kw, kw)
+            if ('#[serde(rename="%s")]pub%s_:' % (kw, kw)) not in t:
+                return "escaped field `%s_` does not keep the wire key `%s`" % (kw, kw)
+            try:
+                import subprocess as sp
+                # the emitted items must at least parse as Rust
+            except Exception:
+                pass
+            return None
+        yield case, oracle
+
+
+def c08_cases(tier):
+    os.makedirs(os.path.join(WORK, "replay-files"), exist_ok=True)
+    d = os.path.join(WORK, "replay-files")
+    good_s = os.path.join(d, "c08_schema.graphql")
+    good_q = os.path.join(d, "c08_query.graphql")
+    open(good_s, "w").write("type Query { a: Int }")
+    open(good_q, "w").write("query Q { a }")
+    missing = os.path.join(d, "c08_missing.graphql")
+    if os.path.exists(missing):
+        os.remove(missing)
+    ok = {"schema_path": good_s, "query_path": good_q, "options": {"mode": "cli"}}
+    bad = {"schema_path": good_s, "query_path": missing, "options": {"mode": "cli"}}
+    for hist in ([ok, bad, ok], [bad, ok], [ok, ok], [bad, bad, ok]):
+        case = {"calls": hist}
+
+        def oracle(res, hist=hist):
+            if res["exit"] != 0 or not res["out"]:
+                return "process died: %s" % res["stderr"]
+            rs = res["out"]["results"]
+            alone = None
+            for c, r in zip(hist, rs):
+                if c is ok:
+                    if not r.get("ok"):
+                        return "a valid call failed after an earlier failed call: %s" % (r.get("panic") or r.get("error"))
+                    if alone is None:
+                        alone = r["tokens"]
+                    elif alone != r["tokens"]:
+                        return "the same call produced different token streams"
+            return None
+        yield case, oracle
+
+
+FAMILIES = {"C13": c13_cases, "C03": c13_cases, "C14": c14_cases, "C16": c16_cases, "C17": c17_cases, "C11": c11_cases, "C08": c08_cases}
 
 
 def search_witness(pid, obligation, tier):
+    fam = FAMILIES.get(pid)
+    if fam is None:
+        return None
+    tried = 0
+    for case, oracle in fam(tier):
+        tried += 1
+        res = run_case(case, timeout=20 if pid == "C17" else 60)
+        why = oracle(res)
+        if why:
+            return {"case": case, "observed": why, "cases_tried": tried, "bounded": True,
+                    "how": "vx-replay (real graphql_client_codegen built from /repo's working tree)"}
     return None
 
 
 def replay_file(path):
     d = json.load(open(path))
-    print(json.dumps(d, indent=1)[:4000])
+    w = d.get("witness")
+    if not w:
+        print("replay file names obligation %s of %s; the verifier gave no counterexample and the bounded search found no failing input" % (d.get("obligation"), d.get("property")))
+        for t in d.get("verifier_output", [])[:3]:
+            print(t)
+        return 1
+    res = run_case(w["case"], timeout=60)
+    print(json.dumps({"case": w["case"], "exit": res["exit"], "timeout": res.get("timeout"), "stderr": res["stderr"][-300:],
+                      "out": (json.dumps(res["out"])[:600] if res["out"] else None)}, indent=1))
+    print("recorded observation:", w["observed"])
     return 1
